@@ -1,7 +1,13 @@
 """C13 — a sharded cache is observably one cache with a fixed key-to-shard mapping.
 
 (1) call histories on the real FanoutCache (shards in {1,2,3,8,13}) against
-DC.Model.Layers.Fanout (result + every shard's table), incl. the aggregates.
+DC.Model.Layers.Fanout (result + every shard's table): every key-addressed call
+(set/add/get/[]/in/touch/incr/decr/pop/delete/read), the aggregates (len,
+volume, clear, expire, evict, cull, stats, iteration, check, reset) and
+`with fanout.transact()` blocks that commit or raise.
+(3) aggregates over DAMAGED shards (value files deleted/added/resized, counters
+offset, in a random subset of shards) against the shards asked one by one, in
+shard order; the divided size limit; check(fix=True) converging on every shard.
 (2) routing: `hash(key) % shards` of the real code against DC.hashDb / diskHash
 (the `route` op) and across fresh interpreters with different PYTHONHASHSEED.
 Acceptor: the reference dictionary of C03 (the unsharded behaviour), and
